@@ -919,4 +919,207 @@ theorem foldl_putGlyph (cps : List Nat) (vt : VTState) (hpw : vt.pendingWrap = f
       rw [hc] at hfit
       exact put2_place vt cp hpw (by simp only [List.length_cons, List.length_nil] at hfit; omega)
 
+/-! ### SGR: the bytes of `chpen` as a fold over the parameter list -/
+
+/-- One driver parameter fed to the SGR interpreter: a parameter marked `CSI_MORE_SUBPARAM` joins the next one
+    in the same group when the terminal takes colons, otherwise it is a parameter of its own. -/
+def pstep (colon : Bool) (s : SgrAcc × List (Option Nat)) (p : SgrParam) : SgrAcc × List (Option Nat) :=
+  if (p.more && colon) = true then (s.1, s.2 ++ [some p.val.toNat])
+  else (sgrStep s.1 (s.2 ++ [some p.val.toNat]), [])
+
+/-- The last parameter closes its group whatever its mark says. -/
+def pfinish (s : SgrAcc × List (Option Nat)) : SgrAcc := if s.2 = [] then s.1 else sgrStep s.1 s.2
+
+/-- The wire form of a parameter list. -/
+def sepOf (colon : Bool) (ps : List SgrParam) : List (List UInt8 × Bool) :=
+  ps.map fun p => (showInt p.val, p.more && colon)
+
+theorem renderSgr_eq (colon : Bool) (ps : List SgrParam) : renderSgr colon ps = joinSep (sepOf colon ps) ++ [0x6d] := by
+  induction ps with
+  | nil => rfl
+  | cons p rest ih =>
+    cases rest with
+    | nil => simp [renderSgr, sepOf, joinSep]
+    | cons q rest =>
+      simp only [renderSgr, sepOf, List.map_cons, joinSep, List.append_assoc]
+      simp only [sepOf, List.map_cons] at ih
+      rw [ih]
+      simp [Bool.and_eq_true]
+
+theorem groups_fold (colon : Bool) (ps : List SgrParam) (hne : ps ≠ []) (hnn : ∀ p ∈ ps, 0 ≤ p.val)
+    (acc : SgrAcc) (sub : List (Option Nat)) :
+    (groupsOf sub (sepOf colon ps)).foldl sgrStep acc = pfinish (ps.foldl (pstep colon) (acc, sub)) := by
+  induction ps generalizing acc sub with
+  | nil => exact absurd rfl hne
+  | cons p rest ih =>
+    have hv : paramVal (showInt p.val) = some p.val.toNat := by
+      rw [showInt_of_nonneg (hnn p (by simp)), paramVal_showNat]
+    cases rest with
+    | nil =>
+      simp only [sepOf, List.map_cons, List.map_nil, groupsOf, List.foldl_cons, List.foldl_nil, hv, pstep, pfinish]
+      by_cases hf : (p.more && colon) = true
+      · simp [hf]
+      · simp [hf]
+    | cons q rest =>
+      have ih' := ih (by simp) (fun x hx => hnn x (by simp [hx]))
+      simp only [sepOf, List.map_cons, groupsOf, hv] at ih' ⊢
+      rw [List.foldl_cons (f := pstep colon)]
+      by_cases hf : (p.more && colon) = true
+      · simp only [hf, if_true, pstep]
+        exact ih' acc (sub ++ [some p.val.toNat])
+      · simp only [hf, if_false, pstep, List.foldl_cons]
+        exact ih' (sgrStep acc (sub ++ [some p.val.toNat])) []
+
+/-- `ESC [ … m` as the driver renders it acts on background and reverse video as the fold says. -/
+theorem run_renderSgr (vt : VTState) (hg : vt.ps = .ground) (colon : Bool) (ps : List SgrParam) (hne : ps ≠ [])
+    (hnn : ∀ p ∈ ps, 0 ≤ p.val) :
+    run (csi (renderSgr colon ps)) vt =
+      { vt with bg := (pfinish (ps.foldl (pstep colon) (⟨vt.bg, vt.rv, .none⟩, []))).bg,
+                rv := (pfinish (ps.foldl (pstep colon) (⟨vt.bg, vt.rv, .none⟩, []))).rv } := by
+  have hm : classify 0x6d = .final := by decide
+  rw [renderSgr_eq]
+  unfold csi
+  rw [run_csi_sep vt hg (sepOf colon ps) (by simpa [sepOf] using hne) (by
+        intro x hx b hb
+        obtain ⟨q, hq, rfl⟩ := List.mem_map.mp hx
+        simp only at hb
+        rw [showInt_of_nonneg (hnn q hq)] at hb
+        exact showNat_digits _ b hb) 0x6d hm, dispatch_sgr]
+  simp only [VTState.sgr, groups_fold colon ps hne hnn]
+
+/-- `ESC [ m`. -/
+theorem run_sgr_reset (vt : VTState) (hg : vt.ps = .ground) :
+    run (csi [0x6d]) vt = { vt with bg := -1, rv := false } := by
+  rw [run_csi_0 vt hg 0x6d (by decide), dispatch_sgr]
+  simp [VTState.sgr, sgrStep]
+
+/-! The pieces the pen model assembles its parameter list from. -/
+
+abbrev PS := SgrAcc × List (Option Nat)
+
+theorem fold_ite {α β : Type} (f : β → α → β) (c : Bool) (l : List α) (s : β) :
+    (if c = true then l else []).foldl f s = if c = true then l.foldl f s else s := by
+  cases c <;> simp
+
+theorem piece_fg (colon : Bool) (bg : Int) (rv : Bool) :
+    ([⟨39, false⟩] : List SgrParam).foldl (pstep colon) (⟨bg, rv, .none⟩, []) = (⟨bg, rv, .none⟩, []) := by
+  simp [pstep, sgrStep]
+
+theorem piece_bui (colon : Bool) (bg : Int) (rv : Bool) :
+    ([⟨22, false⟩, ⟨24, false⟩, ⟨23, false⟩] : List SgrParam).foldl (pstep colon) (⟨bg, rv, .none⟩, []) =
+      (⟨bg, rv, .none⟩, []) := by
+  simp [pstep, sgrStep]
+
+theorem piece_tail (colon : Bool) (bg : Int) (rv : Bool) :
+    ([⟨29, false⟩, ⟨10, false⟩, ⟨25, false⟩, ⟨75, false⟩] : List SgrParam).foldl (pstep colon) (⟨bg, rv, .none⟩, []) =
+      (⟨bg, rv, .none⟩, []) := by
+  simp [pstep, sgrStep]
+
+theorem piece_rv (colon : Bool) (bg : Int) (rv v : Bool) :
+    ([⟨if v = true then 7 else 27, false⟩] : List SgrParam).foldl (pstep colon) (⟨bg, rv, .none⟩, []) =
+      (⟨bg, v, .none⟩, []) := by
+  cases v <;> simp [pstep, sgrStep]
+
+theorem piece_bg (colon : Bool) (bg : Int) (rv : Bool) (v : Int) (h0 : -1 ≤ v) (h1 : v ≤ 255) :
+    (bgParams v).foldl (pstep colon) (⟨bg, rv, .none⟩, []) = (⟨v, rv, .none⟩, []) := by
+  unfold bgParams
+  by_cases c0 : v < 0
+  · have : v = -1 := by omega
+    subst this
+    simp [pstep, sgrStep]
+  · by_cases c1 : v < 8
+    · simp only [c0, c1, if_true, if_false, List.foldl_cons, List.foldl_nil, pstep, Bool.false_and, Bool.false_eq_true,
+        List.nil_append]
+      have e : (40 + v).toNat = 40 + v.toNat := by omega
+      have a1 : ¬ (40 + v.toNat = 0) := by omega
+      have a2 : ¬ (40 + v.toNat = 7) := by omega
+      have a3 : ¬ (40 + v.toNat = 27) := by omega
+      have a4 : 40 ≤ 40 + v.toNat ∧ 40 + v.toNat ≤ 47 := by omega
+      have e2 : ((40 + v.toNat - 40 : Nat) : Int) = v := by omega
+      simp only [sgrStep, Option.getD_some, e, a1, a2, a3, if_false, ne_eq, not_true_eq_false]
+      rw [if_pos a4, e2]
+    · by_cases c2 : v < 16
+      · simp only [c0, c1, c2, if_true, if_false, List.foldl_cons, List.foldl_nil, pstep, Bool.false_and,
+          Bool.false_eq_true, List.nil_append]
+        have e : (40 + 60 + v - 8).toNat = 92 + v.toNat := by omega
+        have a1 : ¬ (92 + v.toNat = 0) := by omega
+        have a2 : ¬ (92 + v.toNat = 7) := by omega
+        have a3 : ¬ (92 + v.toNat = 27) := by omega
+        have a4 : ¬ (40 ≤ 92 + v.toNat ∧ 92 + v.toNat ≤ 47) := by omega
+        have a5 : 100 ≤ 92 + v.toNat ∧ 92 + v.toNat ≤ 107 := by omega
+        have e2 : ((92 + v.toNat - 100 + 8 : Nat) : Int) = v := by omega
+        simp only [sgrStep, Option.getD_some, e, a1, a2, a3, if_false, ne_eq, not_true_eq_false]
+        rw [if_neg a4, if_pos a5, e2]
+      · simp only [c0, c1, c2, if_false, List.foldl_cons, List.foldl_nil, pstep]
+        have hv : ((v.toNat : Nat) : Int) = v := by omega
+        cases colon
+        · simp [sgrStep, hv]
+        · simp [sgrStep, sgrExtBgColon, hv]
+
+theorem bgParams_nonneg (v : Int) (h0 : -1 ≤ v) : ∀ p ∈ bgParams v, 0 ≤ p.val := by
+  unfold bgParams
+  intro p hp
+  (repeat' split at hp) <;> simp at hp <;> (try rcases hp with hp | hp | hp) <;> subst_vars <;> simp <;> omega
+
+theorem setpenParams_nonneg (o cb cr : Bool) (bgv : Int) (rvv : Bool) (h0 : -1 ≤ bgv) :
+    ∀ p ∈ setpenParams o cb cr bgv rvv, 0 ≤ p.val := by
+  intro p hp
+  unfold setpenParams at hp
+  simp only [List.mem_append] at hp
+  rcases hp with (((hp | hp) | hp) | hp) | hp
+  · cases o <;> simp at hp; subst hp; decide
+  · cases cb <;> simp at hp; exact bgParams_nonneg bgv h0 p hp
+  · cases o <;> simp at hp; rcases hp with hp | hp | hp <;> subst hp <;> decide
+  · cases cr <;> simp at hp; subst hp; cases rvv <;> decide
+  · cases o <;> simp at hp; rcases hp with hp | hp | hp | hp <;> subst hp <;> decide
+
+/-- What the parameter list of a pen change does to background and reverse video. -/
+theorem setpenParams_fold (colon o cb cr : Bool) (bgv : Int) (rvv : Bool) (h0 : -1 ≤ bgv) (h1 : bgv ≤ 255)
+    (bg : Int) (rv : Bool) :
+    (setpenParams o cb cr bgv rvv).foldl (pstep colon) (⟨bg, rv, .none⟩, []) =
+      (⟨if cb = true then bgv else bg, if cr = true then rvv else rv, .none⟩, []) := by
+  unfold setpenParams
+  simp only [List.foldl_append, fold_ite, piece_fg, piece_bui, piece_tail, ite_self]
+  cases cb
+  · cases cr
+    · simp only [Bool.false_eq_true, if_false, piece_bui, piece_tail, ite_self]
+    · simp only [Bool.false_eq_true, if_false, if_true, piece_bui, piece_rv, piece_tail, ite_self]
+  · cases cr
+    · simp only [Bool.false_eq_true, if_false, if_true, piece_bg colon bg rv bgv h0 h1, piece_bui, piece_tail, ite_self]
+    · simp only [if_true, piece_bg colon bg rv bgv h0 h1, piece_bui, piece_rv, piece_tail, ite_self]
+
+theorem setpenParams_eq_nil (o cb cr : Bool) (bgv : Int) (rvv : Bool) :
+    setpenParams o cb cr bgv rvv = [] ↔ (o = false ∧ cb = false ∧ cr = false) := by
+  unfold setpenParams bgParams
+  cases o <;> cases cb <;> cases cr <;> simp <;> (repeat' split) <;> simp
+
+/-- The bytes of a pen change, interpreted. -/
+theorem run_chpenBytes (vt : VTState) (hg : vt.ps = .ground) (colon o cb cr : Bool) (bgv : Int) (rvv : Bool)
+    (h0 : -1 ≤ bgv) (h1 : bgv ≤ 255) (final : PenCache) :
+    run (chpenBytes colon (setpenParams o cb cr bgv rvv) final) vt =
+      if o = false ∧ cb = false ∧ cr = false then vt
+      else if final.nondefault = false then { vt with bg := -1, rv := false }
+      else { vt with bg := if cb = true then bgv else vt.bg, rv := if cr = true then rvv else vt.rv } := by
+  unfold chpenBytes
+  by_cases hnil : setpenParams o cb cr bgv rvv = []
+  · rw [if_pos hnil, if_pos ((setpenParams_eq_nil o cb cr bgv rvv).mp hnil)]; rfl
+  · rw [if_neg hnil, if_neg (fun h => hnil ((setpenParams_eq_nil o cb cr bgv rvv).mpr h))]
+    cases hnd : final.nondefault
+    · simp only [Bool.not_false, if_true]
+      exact run_sgr_reset vt hg
+    · simp only [Bool.not_true, Bool.false_eq_true, if_false]
+      rw [run_renderSgr vt hg colon _ hnil (setpenParams_nonneg o cb cr bgv rvv h0),
+        setpenParams_fold colon o cb cr bgv rvv h0 h1]
+      rfl
+
+theorem nondefault_false (o : Bool) (b : Option Int) (r : Option Bool) (h : (PenCache.mk o b r).nondefault = false) :
+    (∀ v, b = some v → v = -1) ∧ r.getD false = false := by
+  simp only [PenCache.nondefault, Bool.or_eq_false_iff] at h
+  refine ⟨?_, h.2⟩
+  intro v hv
+  subst hv
+  have := h.1
+  simp only [ne_eq, decide_not, Bool.not_eq_false', decide_eq_true_eq] at this
+  exact this
+
 end Tickit.XTermDrv
